@@ -29,11 +29,11 @@ PROPS["C07"] = {
     "rule": "ops = every byte string of length <= 2 for n = 1..3 (complete; length 3 for n = 2 in the thorough tier), token-built strings (valid encodings with exact-fit/slack 0..17 bits, negative zero, boundary unary runs 93..512 at any/last position, dirty padding, bit flips, truncation/extension, wrong n), production-size buffers (625/1239 bytes) steered to end at the buffer end, compress on vectors x budgets around the fit edge; distinct by op line; non-trivial when the property's predicate applies (n >= 1; entries below 12160) and was evaluated against the harness's independent bit-list Algorithm 17/18 and by re-compressing / re-decompressing on the real code",
     "exhaustive": {"quick": (False, "all strings of length <= 2 for n <= 3 enumerated; longer strings generated"),
                     "thorough": (False, "all strings of length <= 2 (n <= 3) and of length 3 (n = 2) enumerated; longer strings generated")},
-    "level_text": "Machine-checked theorems about the specification-level codec (Algorithms 17/18 + cap 95, the constants re-extracted from encoding.rs): compress fails iff empty or does not fit; whatever it returns decompresses to the input (entries below 12160); every accepted string is exactly the compression of the returned vector (canonicity, injectivity); negative zero, dirty padding, runs >= 95, truncation rejected. The byte-level model of encoding.rs and the real code are tied to that specification by three-way differential execution, complete on all short strings.",
-    "level_note": "Trusted: Lean kernel; the byte-level model <-> bit-level specification refinement is checked by execution (exhaustive on short strings), not yet by a theorem for all lengths; harness reference codec; translator (caps 95/95, guards 9/8).",
+    "level_text": "Machine-checked: the byte-level model of decompress (every index, shift, OR, the deferred '-0' flag, the two-stage padding check; constants re-extracted from encoding.rs) computes exactly Algorithm 18 with the cap on every byte string, every n >= 1, both build modes (decompress_refines); on the specification: compress fails iff empty or does not fit; whatever it returns decompresses to the input (entries below 12160); every accepted string is exactly the compression of the returned vector (canonicity, injectivity; also stated for the byte-level decompressor); negative zero, dirty padding, runs >= 95, truncation rejected. The byte-level compress is tied to the specification by three-way differential execution (complete on short vectors/budgets).",
+    "level_note": "Trusted: Lean kernel; byte-level compress <-> Algorithm 17 is checked by execution, not by a theorem; the byte-level model's faithfulness to the Rust code is checked three-valued on every run (exhaustive on all strings of length <= 2); translator (caps 95/95, guards 9/8).",
     "trusted_base": TB_COMMON,
-    "assumptions": ["refinement between the byte-twiddling implementation and the bit-list specification holds beyond the enumerated/generated inputs (it is validated on every run, not proved for all lengths)"],
-    "not_proved": ["Codec.decompress/compress (byte-level) = Spec.decompressRef/compressRef for all inputs: validated by execution only"],
+    "assumptions": [],
+    "not_proved": ["Codec.compress (byte-level) = Spec.compressRef for all inputs: validated by execution only"],
     "release_too": True,
     "release_filter": r"^(de)?compress ",
 }
@@ -83,10 +83,10 @@ PROPS["C02"] = {
     "rule": "ops = verify through the public API (bytes in): (msg, sig, pk) triples constructed so that the specification norm is exactly beta^2-2 .. beta^2+2 (thorough: +-8) for both variants with three shapes of s2, random norms on both sides, s2 coefficients beyond q/2 up to the codec cap, production-size encodings with every boundary of the codec generator under random keys, encodings that fill the buffer to the last bit, undecodable inputs; distinct by op line; every op is judged against Algorithm 16 (Alg. 3 + uncapped Alg. 18 + schoolbook product) implemented independently in the harness",
     "exhaustive": {"quick": (False, ""), "thorough": (False, "")},
     "level_text": "Machine-checked for every n = 2^d <= 1024, every hashed point, public key and decoder output, both build modes: verify's NTT pipeline computes exactly c - s2*h in Z_q[X]/(X^n+1), centres it, adds the integer norm of s2 and compares with <= floor(beta^2) (34034726 / 70265242, operator and constants re-extracted from falcon.rs); returns false when decompression fails; the codec's magnitude cap cannot change a verdict. With C07 (decompressor = Algorithm 18 + cap) and C14 this is Algorithm 16.",
-    "level_note": "Trusted: Lean kernel + Mathlib algebra; translator; SHAKE-256 transcription (C14); the byte-level/bit-level refinement of decompress is validated by execution (C07), so the end-to-end equality with Algorithm 16 on raw bytes rests on that plus the theorems.",
+    "level_note": "Trusted: Lean kernel + Mathlib algebra; translator; SHAKE-256 transcription (C14). verifyCore_eq_algorithm16 is end to end on raw signature bytes: it includes the byte-level decoder's refinement to Algorithm 18.",
     "trusted_base": TB_COMMON + ["sha3 crate / Lean SHAKE-256 transcription (see C14)"],
     "assumptions": ["the hashed point has n coefficients (the SHAKE stream contains n accepted chunks)"],
-    "not_proved": ["Codec.decompress = Spec.decompressRef for all byte strings (validated by execution, see C07)"],
+    "not_proved": [],
     "release_too": False,
 }
 
